@@ -3,12 +3,12 @@ package main
 // govc check: decide one property, write evidence, print VIOLATION / KNOWN-FINDING.
 
 import (
-	"os/exec"
 	"context"
 	"encoding/json"
 	"flag"
 	"fmt"
 	"os"
+	"os/exec"
 	"path/filepath"
 	"sort"
 	"strconv"
@@ -442,6 +442,11 @@ func cmdCheck(args []string) {
 		"sync.Mutex Lock/Unlock are no-ops (sequential semantics); log output is not modelled; termination is not proved",
 		"callers see only callee contracts (modular); loops are cut at their invariants",
 	}
+	if *prop == "C18" || *prop == "C14" {
+		assumptions = append(assumptions,
+			"A-chan (thermal-writer) goroutines are verified one by one; channel operations are events of the function's call trace. ASSUMED: Go channel semantics (FIFO, exactly-once delivery, a closed channel yields its queued values before reporting closed, a send happens-before the matching receive) and that a goroutine started under contract interferes with its parent only through the channels it was given (its frame is not checked in permissive mode). Interleavings are not enumerated; deadlock freedom is not proved",
+		)
+	}
 	for _, t := range p.Trusted {
 		assumptions = append(assumptions, t)
 	}
@@ -451,23 +456,23 @@ func cmdCheck(args []string) {
 	ev := evidence{PropertyID: *prop, Tier: *tier, Seed: seed, Level: "proof", WallS: round3(time.Since(start).Seconds()), Violations: violations,
 		Assumptions: assumptions,
 		Coverage: map[string]interface{}{
-			"obligations":          nObl,
-			"discharged":           nDis,
-			"checker_cmd":          fmt.Sprintf("govc check -prop %s -tier %s (go/ssa -> SMT-LIB2; portfolio z3-new|z3|cvc5, %ds per obligation%s)", *prop, *tier, timeout, map[bool]string{true: ", every solver run, disagreement = failure", false: ""}[all]),
-			"trusted_base":         []string{"golang.org/x/tools v0.29.0 (go/packages, go/ssa)", "govc SSA->SMT translation", "z3 4.8.12", "z3 5.1.0", "cvc5 1.0.3"},
+			"obligations":              nObl,
+			"discharged":               nDis,
+			"checker_cmd":              fmt.Sprintf("govc check -prop %s -tier %s (go/ssa -> SMT-LIB2; portfolio z3-new|z3|cvc5, %ds per obligation%s)", *prop, *tier, timeout, map[bool]string{true: ", every solver run, disagreement = failure", false: ""}[all]),
+			"trusted_base":             []string{"golang.org/x/tools v0.29.0 (go/packages, go/ssa)", "govc SSA->SMT translation", "z3 4.8.12", "z3 5.1.0", "cvc5 1.0.3"},
 			"functions_under_contract": fnList,
-			"function_modes":       modes,
-			"discharged_by_solver": bySolver,
-			"solver_seconds":       round3(solverSecs),
-			"samples":              samples,
-			"hook_files":           p.hookFileReport(),
-			"known_findings":       knownLines,
-			"spot_checks_testing":  spot,
-			"bounded_standins":     map[string]interface{}{"functions_of_repo_with_assumed_contract": assumedInRepo, "stand_in": "replay driver(s) of this property run on every tier (seeded random search, ~200k scenarios or 20 s; bounded, not a proof)"},
-			"mutants_total":        mutTotal,
-			"mutants_reported":     mutCaught,
-			"mutants_missed":       mutMissed,
-			"explanation":          "every obligation generated from /repo's current source for the functions whose contracts carry this property tag (ensures tagged with the property, all support clauses, loop invariants, call-site requires, frame and safety conditions) must be unsat; vacuity guards (requires/invariants satisfiable, a return reachable) must not be unsat",
+			"function_modes":           modes,
+			"discharged_by_solver":     bySolver,
+			"solver_seconds":           round3(solverSecs),
+			"samples":                  samples,
+			"hook_files":               p.hookFileReport(),
+			"known_findings":           knownLines,
+			"spot_checks_testing":      spot,
+			"bounded_standins":         map[string]interface{}{"functions_of_repo_with_assumed_contract": assumedInRepo, "stand_in": "replay driver(s) of this property run on every tier (seeded random search, ~200k scenarios or 20 s; bounded, not a proof)"},
+			"mutants_total":            mutTotal,
+			"mutants_reported":         mutCaught,
+			"mutants_missed":           mutMissed,
+			"explanation":              "every obligation generated from /repo's current source for the functions whose contracts carry this property tag (ensures tagged with the property, all support clauses, loop invariants, call-site requires, frame and safety conditions) must be unsat; vacuity guards (requires/invariants satisfiable, a return reachable) must not be unsat",
 		},
 	}
 	evFile := *evOut
